@@ -15,7 +15,7 @@ CHECKS = {
  "C02": {
   "level": "proof",
   "technique": "Coq proof T_dec (Unmarshal of generated code = reference decoder on every byte string) + Loop theorem + record-exchange/split invariance theorems + correspondence on rewritten valid encodings + protobuf-go",
-  "text": "Proved in Coq: Theorem T_dec (Schema/TDec.v): for every message type with tdec_applies_at (valid distinct numbers and no custom type without modelled semantics among the message types reachable from it; evaluated per type on every run) and EVERY byte string, Unmarshal of the generated program returns exactly what the reference decoder (tokenize, then merge token by token) computes and returns an error exactly when the reference decoder rejects the input. This covers fields in any order, packed/unpacked/mixed repeated scalars, split repeated fields, non-minimal varints, unknown fields, merged sub-messages, duplicate map keys; below it the Loop theorem (multi-pass Loop = single-pass dispatch for the Decode body of every accepted message), the token bridge (ConsumeVarint/ConsumeFieldValue/nextField = the wire grammar on arbitrary bytes) and the decode transforms for every 64-bit wire value. Two-input invariance is a theorem for the structural rewritings (Schema/Rewrites.v): C02_exchange_records_unmarshal - exchanging two adjacent records with different field numbers (not members of one oneof) or an unknown record with any record, anywhere in the input, leaves Unmarshal's verdict and value unchanged; C02_split_submessage - a sub-message sent as two records equals one record with the concatenated body. For the remaining rewritings (packed<->unpacked, over-long varints, duplicate scalars) the two inputs' equality of reference value is not a separate theorem: the rewritten-encoding stream compares implementation, model, reference decoder and protobuf-go per run. The theorems are about the Gallina model: that the model is the code is checked on every run by evaluating the extracted model and the implementation built from the working tree on the same generated inputs (checked-in types and freshly generated ones), that the emitted programs are the generator model's by T-pico, and that the reference specification means what protobuf means by comparing it with protobuf-go.",
+  "text": "Proved in Coq: Theorem T_dec (Schema/TDec.v): for every message type with tdec_applies_at (valid distinct numbers and no custom type without modelled semantics among the message types reachable from it; evaluated per type on every run) and EVERY byte string, Unmarshal of the generated program returns exactly what the reference decoder (tokenize, then merge token by token) computes and returns an error exactly when the reference decoder rejects the input. This covers fields in any order, packed/unpacked/mixed repeated scalars, split repeated fields, non-minimal varints, unknown fields, merged sub-messages, duplicate map keys; below it the Loop theorem (multi-pass Loop = single-pass dispatch for the Decode body of every accepted message), the token bridge (ConsumeVarint/ConsumeFieldValue/nextField = the wire grammar on arbitrary bytes) and the decode transforms for every 64-bit wire value. Two-input invariance is a theorem for the structural rewritings (Schema/Rewrites.v): C02_exchange_records_unmarshal - exchanging two adjacent records with different field numbers (not members of one oneof) or an unknown record with any record, anywhere in the input, leaves Unmarshal's verdict and value unchanged; C02_split_submessage - a sub-message sent as two records equals one record with the concatenated body. (Schema/Packed.v) C02_packed_unpacked_unmarshal - the packed record of a non-empty list of a repeated scalar/enum field and one record per element, anywhere in the input, give the same verdict and value; C02_packed_split - a packed record may be cut into several (mixed forms by iteration); C02_nonminimal_varint / C02_same_meaning_records - a record of a known field re-spelt with redundant varint groups in tag and value (more generally: any record with the same number, wire type and parsed payload) is read alike; C02_replace_records - any run of complete records may be replaced by one with the same effect on every target. Last-one-wins for duplicate singular scalars is the definition of the reference merge, compared with protobuf-go per run. The theorems are about the Gallina model: that the model is the code is checked on every run by evaluating the extracted model and the implementation built from the working tree on the same generated inputs (checked-in types and freshly generated ones), that the emitted programs are the generator model's by T-pico, and that the reference specification means what protobuf means by comparing it with protobuf-go.",
   "note": "Trusted: Coq 8.16.1 kernel (vm_compute, no native_compute, no axioms: Print Assumptions recorded in evidence), extraction with ExtrOcamlBasic, the OCaml driver, the Go harness and generators, protobuf-go v1.31.0 as oracle. The tie between model and Go code is differential testing on the projection named in the level text, not proof.",
   "ref": "8 C02"
  },
